@@ -188,6 +188,11 @@ def plan(chk):
     return specs
 
 
+def _dispatch(spec):
+    from .. import longrun
+    return longrun.long_case(spec) if spec.get("case") == "long" else case(spec)
+
+
 def main():
     chk = core.Check("C01")
     core.build("release")
@@ -198,7 +203,9 @@ def main():
         sp["work"] = chk.workdir
     # large cases first so the pool stays busy
     specs.sort(key=lambda s: -(s.get("val", 0) if s["shape"] == "boundary" else (50000 if s["shape"] in ("long", "manytx") else 0)))
-    for res in core.parallel(case, specs):
+    specs.insert(0, dict(case="long", callback="csvdump", coin=COIN_NAMES[(chk.seed + 0) % 8], seed=chk.seed, n=0, blocks=(140000 if chk.thorough else 70000), verify=bool(chk.seed % 2), work=chk.workdir))
+    specs[0]["shape"] = "long-run"
+    for res in core.parallel(_dispatch, specs):
         chk.absorb(res)
     chk.finish(RULE, floor={"runs": 60, "rows_compared": 50000, "runs:verify": 20, "_shapes": 40},
                assumptions=["well-formed chains only: canonical CompactSize encodings, >=1 input and >=1 output per transaction",
@@ -207,4 +214,5 @@ def main():
 
 
 def replay(spec):
-    core.replay_case("C01", {"case": case}, spec)
+    from .. import longrun
+    core.replay_case("C01", {"case": case, "long": longrun.long_case}, spec)
